@@ -98,6 +98,29 @@ def _uri(rnd):
     return s
 
 
+def _uri_full(rnd):
+    """http/https/ftp URIs with a host that use the whole generic syntax of RFC 3986 (nothing lenient about them)"""
+    un = "abcdefghijklmnopqrstuvwxyz0123456789-._~"
+    s = rnd.choice(["http", "https", "ftp"]) + "://"
+    k = rnd.randint(0, 3)
+    if k == 1:
+        s += _word(rnd, un) + "@"
+    elif k == 2:
+        s += _word(rnd, un) + ":" + _word(rnd, un + "!$&'()*+,;=") + "@"
+    elif k == 3:
+        s += _word(rnd, un) + ":@"
+    s += rnd.choice([_host(rnd), _host(rnd), "192.0.2.%d" % rnd.randint(0, 255), "[2001:db8::%x]" % rnd.randint(1, 65535), "[::1]"])
+    if rnd.random() < 0.5:
+        s += ":" + str(rnd.randint(1, 65535))
+    for _ in range(rnd.randint(0, 3)):
+        s += "/" + rnd.choice([_word(rnd, un), "%41%c3%a9", "a;b=c,d", "~u", "x%20y", "(z)", "p:q@r"])
+    if rnd.random() < 0.5:
+        s += "?" + _word(rnd) + "=" + rnd.choice(["1", "a%26b", "x/y?z", ""]) + rnd.choice(["", "&k=v"])
+    if rnd.random() < 0.5:
+        s += "#" + rnd.choice(["frag", "a/b?c", "", "%23"])
+    return s
+
+
 GEN = {
     "NONE": lambda r: None,
     "EMPTY": lambda r: "",
@@ -119,6 +142,7 @@ GEN = {
     "BADDATE": lambda r: r.choice(["2021-02-30", "2020-13-01", "2020-00-10", "2019-02-29", "2020-04-31", f"{r.randint(1000, 2999)}-{r.randint(13, 99)}-{r.randint(1, 28):02d}",
                                    f"{r.randint(1000, 2999)}-{r.randint(1, 12):02d}-{r.randint(32, 99)}"]),
     "URI": _uri,
+    "URI_FULL": _uri_full,
     "URI_BADSCHEME": lambda r: r.choice(["mailto:user@" + _host(r), "file:///etc/" + _word(r), "gopher://" + _host(r) + "/", "urn:isbn:" + str(r.randint(1, 10 ** 9)),
                                          "ssh://" + _host(r), "javascript:" + _word(r)]),
     "URI_NOSCHEME": lambda r: r.choice([_host(r) + "/" + _word(r), "//" + _host(r) + "/p", "/just/" + _word(r), "www." + _host(r)]),
